@@ -779,12 +779,23 @@ func genHist(w *bufio.Writer, r *rng, id int) {
 	}
 	n := 2 + r.intn(5)
 	var lastNF *am.Func
+	// a run-once target, every other time: redefined before its first use, then used through the redefined function and
+	// through the original (two handles on one function: its body runs once)
+	twoHandles := sc.Funcs[0].Once && r.chance(1, 2)
+	if twoHandles && n < 3 {
+		n = 3
+	}
 	for k := 0; k < n; k++ {
-		switch x := r.intn(12); {
+		x := r.intn(12)
+		forced := twoHandles && k < 3
+		if forced {
+			x = []int{0, 11, 11}[k]
+		}
+		switch {
 		case x < 3:
 			// half of the Redefine operations carry an input filter, so that planning runs through the converters
 			var fin *filterSpec
-			if r.chance(1, 2) {
+			if !forced && r.chance(1, 2) {
 				fin = &filterSpec{nest: r.intn(3)}
 				for _, i := range valueOpts {
 					if r.chance(2, 3) {
@@ -830,7 +841,7 @@ func genHist(w *bufio.Writer, r *rng, id int) {
 		default:
 			fmt.Fprintf(w, "run %d call\nhop target=0 omit=\n", k)
 			w.Flush()
-			if lastNF != nil && r.chance(1, 2) {
+			if lastNF != nil && ((forced && k == 1) || (!forced && r.chance(1, 2))) {
 				// the same call made through the redefined function (run-once state is shared between the handles)
 				for _, l := range sc.callThrough(lastNF) {
 					fmt.Fprintln(w, l)
